@@ -390,11 +390,21 @@ theorem realizer_idempotent (n : Nat) (x : Nat → K) (r : Nat) :
 theorem regrid1_spec (q : Nat → Nat → K) (n N : Nat) (x : Nat → K) (j : Nat) (hj : j < N) :
     let b := min (n - 2) (j * n / N)
     let t := q (j * n - b * N) N
-    apply (regrid1 q n N) x j = (1 - t) * x b + t * x (b + 1) := by
+    apply (regrid1 q n N) x j = (1 - t) * x b + t * x (min (n - 1) (b + 1)) := by
   intro b t
   unfold regrid1; rw [apply_ofRows]
   simp only [hj, if_true, List.map_cons, List.map_nil, sumL_cons, sumL_nil, add_zero]
   rfl
+
+/-- the regridding axis operator is well-formed for every non-empty axis (so `coo_adjoint` applies), including
+    the axis of length 1 on which the unrepaired code indexed pixel −1 -/
+theorem regrid1_wf (q : Nat → Nat → K) (n N : Nat) (hn : 1 ≤ n) : (regrid1 q n N).wf = true := by
+  unfold regrid1; apply ofRows_wf
+  intro r _ cw hcw
+  simp only [List.mem_cons, List.mem_nil_iff, or_false] at hcw
+  rcases hcw with rfl | rfl
+  · simp only; omega
+  · simp only; omega
 
 /-- one fibre of MatrixProductOperator: `y[i] = Σ_j m[i,j] x[j]` -/
 theorem matrixProduct1_spec (n : Nat) (m : List K) (x : Nat → K) (i : Nat) (hi : i < n) :
